@@ -8,7 +8,7 @@ import os, re, ast, json, itertools, warnings
 import xml.etree.ElementTree as ET
 
 ID = 'C06'
-COQ_ROOTS = ['Props/C06.v']
+COQ_ROOTS = ['Props/C06.v', 'GenProps/RpcErrors_consts.v']
 RULE = ('replies with 0..4 rpc-errors (severity in error/warning/absent/other/padded, optional-field subsets, duplicate '
         'and reordered fields, empty elements, comments, nested/foreign-namespace rpc-errors, prefixed or default '
         'namespace, optional <ok/>) x raise modes NONE/ERRORS/ALL(+default) x exempt pattern sets (exact, *x, x*, *x*, '
